@@ -3,7 +3,7 @@
    level_table, exec_dispatch, factor_calls, host_calls) come from coq/Gen/Gen_C17_basic.v, regenerated from
    PBasic.cpp / PBasic.h and the host files by translator/c17_gen.py on every run. *)
 From Coq Require Import ZArith Bool List String Floats.
-From IPV.C17 Require Import Num Tok Eval Exec Ast Tie PrecProof ExecProof.
+From IPV.C17 Require Import Num Tok Eval Exec Ast Tie PrecProof ExecProof StrProof.
 From IPV.Gen Require Import Gen_C17_basic.
 Import ListNotations.
 
@@ -219,3 +219,55 @@ Theorem run_fuel_irrelevant :
     run num ops tbl hp prog efuel f s = r -> r <> NoFuel -> forall f', f <= f' -> run num ops tbl hp prog efuel f' s = r.
 Proof. exact ExecProof.run_fuel_irrelevant. Qed.
 Print Assumptions run_fuel_irrelevant.
+
+(* ---------------------------------------------------------------- string primitives are the textbook functions *)
+
+(* INSTR: 1-based position of the FIRST occurrence of p in s (occurs_at p s k: p is a prefix of s from offset k),
+   0 exactly when p occurs nowhere *)
+Theorem instr_spec : forall (p s : list Ascii.ascii),
+  let r := str_find p s 1%Z in
+  (r = 0%Z /\ forall j, j <= List.length s -> ~ occurs_at p s j) \/
+  ((1 <= r <= 1 + Z.of_nat (List.length s))%Z /\ occurs_at p s (Z.to_nat (r - 1)) /\
+   forall j, j < Z.to_nat (r - 1) -> ~ occurs_at p s j).
+Proof. exact StrProof.instr_spec. Qed.
+Print Assumptions instr_spec.
+
+Theorem is_prefix_iff : forall (p s : list Ascii.ascii), is_prefix p s = true <-> exists t, s = (p ++ t)%list.
+Proof. exact StrProof.is_prefix_iff. Qed.
+Print Assumptions is_prefix_iff.
+
+(* string relations (= <> < > <= >=) are a total order on strings: Eq is equality, swapping the operands swaps
+   the outcome, < is transitive *)
+Theorem str_cmp_eq : forall a b : string, str_cmp a b = Eq <-> a = b.
+Proof. exact StrProof.str_cmp_eq. Qed.
+Print Assumptions str_cmp_eq.
+
+Theorem str_cmp_antisym : forall a b : string, str_cmp b a = CompOpp (str_cmp a b).
+Proof. exact StrProof.str_cmp_antisym. Qed.
+Print Assumptions str_cmp_antisym.
+
+Theorem str_cmp_trans_lt : forall a b c : string, str_cmp a b = Lt -> str_cmp b c = Lt -> str_cmp a c = Lt.
+Proof. exact StrProof.str_cmp_trans_lt. Qed.
+Print Assumptions str_cmp_trans_lt.
+
+(* LTRIM$ / RTRIM$ remove blanks only, all of them, and are idempotent *)
+Theorem drop_spaces_suffix : forall l, exists sp, l = (sp ++ drop_spaces l)%list /\ forallb is_space sp = true.
+Proof. exact StrProof.drop_spaces_suffix. Qed.
+Print Assumptions drop_spaces_suffix.
+
+Theorem drop_spaces_head : forall l, match drop_spaces l with (c :: _)%list => is_space c = false | nil => True end.
+Proof. exact StrProof.drop_spaces_head. Qed.
+Print Assumptions drop_spaces_head.
+
+Theorem drop_spaces_idem : forall l, drop_spaces (drop_spaces l) = drop_spaces l.
+Proof. exact StrProof.drop_spaces_idem. Qed.
+Print Assumptions drop_spaces_idem.
+
+(* PAD$(s, i) keeps s as its prefix and has length max(len s, i) *)
+Theorem pad_s_length : forall s i, String.length (pad_s s i) = Nat.max (String.length s) (Z.to_nat i).
+Proof. exact StrProof.pad_s_length. Qed.
+Print Assumptions pad_s_length.
+
+Theorem pad_s_prefix : forall s i, substring 0 (String.length s) (pad_s s i) = s.
+Proof. exact StrProof.pad_s_prefix. Qed.
+Print Assumptions pad_s_prefix.
